@@ -171,6 +171,7 @@ def glom_top_ref(target, spec, **kwargs):
         if isinstance(e, GlomError):
             try:
                 err = copy.copy(e)
+                err.args = e.args      # "with the same args": re-creating the exception runs its __init__ again, which may transform them
             except Exception:
                 err = e
             err._set_wrapped(e)
